@@ -386,6 +386,13 @@ class Env:
             if len(eqs) == 1:
                 r = it.call_fn(eqs[0], args)
                 return Sc((not r.v) if r.concrete else z3.Not(r.v), 'bool')
+        # ---------------- panicking / abort / stderr ----------------
+        if name == 'panicking' or name.endswith('::panicking'):
+            return Sc(bool(getattr(it, 'panicking', False)), 'bool')
+        if name == 'abort' or name.endswith('process::abort') or name.endswith('intrinsics::abort'):
+            raise Violation('abort', 'std::process::abort() reached%s in %s' % (' while a panic unwinds' if getattr(it, 'panicking', False) else '', ' > '.join(it.stack[-4:])))
+        if name in ('_eprint', '_print') or name.endswith('io::_eprint') or name.endswith('io::_print') or name.endswith('io::stdio::_eprint') or name.endswith('io::stdio::_print'):
+            return UNIT
         # ---------------- thread_local! / Cell ----------------
         if name.endswith('LocalKey::new') or name.endswith('LocalKey::<T>::new'):
             return Agg('LocalKey', 'key', [args[0]])
